@@ -173,10 +173,36 @@ def run(chk):
     n_tab = mu2_table(chk, src, pe2)
     chk.floor("mu2 table rows", n_tab, 6)
     fc = src.func("eko.runner.commons.couplings")
-    txt = ast.unparse(fc.node)
-    ok = "thresholds_ratios * (theory.xif ** 2 if operator.configs.scvar_method == ScaleVariationsMethod.EXPONENTIATED else 1.0)" in txt
-    chk.decide(ok, "matching-scales-shifted-only-when-exponentiated", fc.qname,
-               "runner.commons.couplings no longer multiplies the matching ratios by xif^2 exactly in the exponentiated scheme", where=fc.where)
+    # evaluated with a recording Couplings class for the three schemes: the matching ratios handed to the couplings are the squared
+    # ratios of the card, times xif^2 in the exponentiated scheme only
+    from ..pe import Opaque
+
+    SVM = pe2.enum_members(pe2.get_global("eko.io.types", "ScaleVariationsMethod").cls)
+    ks = [dag.sym("kc"), dag.sym("kb"), dag.sym("kt")]
+    xif = dag.sym("xif")
+    for scheme in ("EXPONENTIATED", "EXPANDED", None):
+        rec = []
+        pe3 = PE(src)
+        pe3.overrides["eko.couplings.Couplings"] = lambda p_, a, k, rec=rec: rec.append(dict(k)) or "SC"
+        pe3.overrides["eko.io.runcards.masses"] = lambda p_, a, k: "MASSES"
+        th, op = Opaque(), Opaque()
+        th.heavy = Opaque()
+        th.heavy.matching_ratios = list(ks)
+        th.heavy.masses_scheme = "SCHEME"
+        th.xif, th.order, th.couplings = xif, (2, 0), "REF"
+        op.configs = Opaque()
+        op.configs.evolution_method = pe3.enum_members(pe3.get_global("eko.io.types", "EvolutionMethod").cls)["ITERATE_EXACT"]
+        op.configs.scvar_method = pe3.enum_members(pe3.get_global("eko.io.types", "ScaleVariationsMethod").cls)[scheme] if scheme else None
+        pe3.call(fc.qname, [th, op])
+        chk.need(len(rec) == 1, "runner.commons.couplings no longer builds exactly one Couplings object")
+        tr = rec[0].get("thresholds_ratios")
+        tr = tr.flat() if isinstance(tr, Arr) else list(tr) if isinstance(tr, (list, tuple)) else []
+        factor = dag.power(xif, 2) if scheme == "EXPONENTIATED" else dag.const(1)
+        ok = len(tr) == 3 and dag.is_zero_fp([dag.sub(dag.tonode(t), dag.mul(dag.power(k_, 2), factor)) for t, k_ in zip(tr, ks)], chk.seed, 2)[0]
+        chk.decide(ok, "matching-scales-shifted-only-when-exponentiated", fc.qname,
+                   f"scheme {scheme}: the couplings get the matching ratios {[dag.short(dag.tonode(t)) for t in tr]}; required k^2"
+                   f"{' * xif^2' if scheme == 'EXPONENTIATED' else ''} (the matching scales of the coupling follow the renormalisation scale "
+                   f"only in the exponentiated scheme)", where=fc.where, instance=str(scheme), how="PE with a recording Couplings class")
     chk.note(instances=n_inst, files=["src/eko/evolution_operator/quad_ker.py", "src/eko/scale_variations/", "src/eko/evolution_operator/__init__.py",
                                       "src/eko/runner/commons.py"])
     chk.explanation = "Unit-ratio identity for all integrand kernels; working-order law for the closed-form non-singlet kernel; mu2 table."
